@@ -439,10 +439,21 @@ pub fn format_number(value_original: f64, format: &str, locale: &Locale) -> Form
             let tokens = &p.tokens;
             value = value * 100.0_f64.powi(p.percent) / (1000.0_f64.powi(p.comma));
             // p.precision is the number of significant digits _after_ the decimal point
-            value = to_precision(
-                value,
-                (p.precision as usize) + format!("{}", value.abs().floor()).len(),
-            );
+            if p.is_scientific {
+                value = to_precision(
+                    value,
+                    (p.precision as usize) + format!("{}", value.abs().floor()).len(),
+                );
+            } else {
+                // Round to p.precision decimal places the way ROUND does: reduce to 15 significant
+                // digits, then round half away from zero (this may carry into the integer part).
+                // With more than 15 digits to show there is nothing left to round.
+                let scale = 10.0_f64.powi(p.precision);
+                let scaled = to_precision(value, 15) * scale;
+                if scaled.abs() < 1e15 {
+                    value = scaled.round() / scale;
+                }
+            }
             let mut value_abs = value.abs();
             let mut exponent_part: Vec<char> = vec![];
             let mut exponent_is_negative = value_abs < 1.0;
